@@ -90,7 +90,7 @@ def generate(seed: int, tier: str, phase: str) -> Dict[str, Any]:
     ops: List[Dict[str, Any]] = []
     n = r.choice([3, 4, 5, 6, 8, 10, 12])
     kinds = ["derive", "derive", "derive", "call", "call", "call", "call", "call_original", "sync",
-             "drop"]
+             "drop", "fleet"]
     if phase == "faults":
         kinds += ["reset", "bad_call", "interrupt", "interrupt", "bad_call"]
     # swarm: random subset of kinds per run, always derive + call
@@ -117,6 +117,8 @@ def generate(seed: int, tier: str, phase: str) -> Dict[str, Any]:
             op.update(dst=r.randrange(16), src=r.randrange(16))
         elif k == "drop":
             op.update(j=r.randrange(16))
+        elif k == "fleet":
+            op.update(n=r.choice([9, 11]), T=[_gen_T(r, False) for _ in range(11)])
         elif k == "bad_call":
             op.update(j=r.randrange(16), kind=r.choice(["shape", "index", "dtype"]))
         elif k == "interrupt":
@@ -353,6 +355,15 @@ def execute(plan: Dict[str, Any]) -> Dict[str, Any]:
                     continue
                 checked_call(m, op["k"], op["bwd"], op["gseed"], where)
                 tag = f"call:{chain_key(m.chain)}:{'bwd' if op['bwd'] else 'fwd'}"
+            elif k == "fleet":
+                # many transformed copies of one module class in one process, each called once
+                for jj in range(op["n"]):
+                    T_ = op["T"][jj]
+                    if not chain_legal([], T_, member):
+                        continue
+                    fm_ = Mod(tw.apply_transform_by_name(original, T_), [T_])
+                    checked_call(fm_, jj % 3, True, 0, where + f" fleet member {jj}")
+                    probe("fleet_members")
             elif k == "call_original":
                 got = tw.run(original, original, tw.clone_inputs(inputs[op["k"]]), 2)
                 want = tw.run(lambda *xs: plain_ref.run(original, xs), original, tw.clone_inputs(inputs[op["k"]]), 2)
